@@ -1,5 +1,16 @@
 (* C02 — Concurrency quotas bound in-flight requests and always free their
-   slots.  Final statements only; proofs are in Proofs.v / Proofs2.v / Proofs3.v.
+   slots.  Final statements only; proofs are in Proofs.v ... Proofs6.v.
+
+   Layout: bound; release exactly once; no leak; the ways a slot is given back
+   by ONE thread running alone (whole chain held); examples; then
+   (A) the same on a PARTIALLY held chain (maximal held prefix), with step
+       bounds, (B) the fuel bridge to [run_op] (what the suites evaluate),
+   (C) release under EVERY interleaving of a phased schedule, (D) GC pass
+   under every interleaving and the history-level "never stays exhausted",
+   (E) why [phased] is needed (refutation) and what an orphan status is,
+   (F) the hypotheses as boolean checks ([wfb], [phasedb], [calls_phasedb]),
+       the suites' states are reachable states up to the verdict register,
+       and the window of the merged setReqStatus frame.
 
    Schedules are arbitrary lists of events of the small-step machine of
    Model.v: any transaction thread or GC thread executes its next lock region
@@ -7,7 +18,7 @@
    forward ([ETick], monotone by construction).  [reachable c t0 s] = s is the
    state after some event list from the empty state at instant t0. *)
 From Coq Require Import List ZArith Bool Lia.
-From Verif Require Import C02.Model C02.Proofs C02.Proofs2 C02.Proofs3.
+From Verif Require Import C02.Model C02.Proofs C02.Proofs2 C02.Proofs3 C02.Proofs4 C02.Proofs5 C02.Proofs6 C02.Phased.
 Import ListNotations.
 Open Scope Z_scope.
 
@@ -331,3 +342,528 @@ Proof.
   - vm_compute; reflexivity.
   - vm_compute; reflexivity.
 Qed.
+
+
+(* ====================================================================== *)
+(* (A) Dec / drop on a partially held chain                                *)
+
+(* [held c s r q q']: q' belongs to the maximal prefix q, parent q, ... of the
+   chain of q on which request r holds a status without interruption
+   (decidable: [heldb], a walk of at most q+1 steps on an acyclic forest). *)
+
+(* Response: Dec of q, run to completion by an idle request — WHATEVER it
+   holds — removes its own member from exactly the quotas of the held prefix,
+   deletes its statuses there, stops at the first quota of the chain without
+   status (that quota and everything above keep member and status: they wait
+   for their own expiry), and changes nothing else: no other quota, no other
+   request's status, no association, no other thread, not the clock.  It takes
+   at most 4*q+5 lock regions. *)
+Theorem C02_dec_releases_held_prefix : forall c, wf c -> forall s r q,
+  stk s (Req r) = [] ->
+  exists n, Z.of_nat n <= 4 * Z.max 0 q + 5 /\
+    let s' := run c s (ECall (Req r) (ODec q) :: repeat (EStep (Req r)) n) in
+    stk s' (Req r) = [] /\
+    (forall q', held c s r q q' ->
+       status s' q' r = None /\
+       exists e, status s q' r = Some e /\ members s' q' = remove_first (e, r) (members s q')) /\
+    (forall q', ~ held c s r q q' -> members s' q' = members s q') /\
+    (forall q' r', ~ held c s r q q' \/ r' <> r -> status s' q' r' = status s q' r') /\
+    firstq s' = firstq s /\ now s' = now s /\
+    (forall t', t' <> Req r -> stk s' t' = stk s t').
+Proof. exact dec_prefix. Qed.
+Print Assumptions C02_dec_releases_held_prefix.
+
+(* the prefix is the whole chain when the whole chain is held (so
+   C02_dec_releases_chain is the special case), and it is computable *)
+Theorem C02_held_whole_chain : forall c s r q,
+  (forall q', anc c q q' -> status s q' r <> None) ->
+  forall q', held c s r q q' <-> anc c q q'.
+Proof. intros c s r q H q'. split; [apply held_anc|apply held_all; exact H]. Qed.
+Print Assumptions C02_held_whole_chain.
+
+Theorem C02_held_decidable : forall c s r, wf c -> forall q q', 0 <= q ->
+  held c s r q q' <-> heldb c s r (Z.to_nat (q + 1)) q q' = true.
+Proof.
+  intros c s r WF q q' Q. split; [|apply heldb_sound].
+  intros H. apply heldb_complete; auto. lia.
+Qed.
+Print Assumptions C02_held_decidable.
+
+(* Early answer / proxy error: the drop pops the association and releases the
+   held prefix of the chain of the first-touched quota — in particular the
+   child's slot of a request that the PARENT refused (429 after a parent's
+   refusal: the prefix is the child alone). *)
+Theorem C02_drop_releases_held_prefix : forall c, wf c -> forall s r q1,
+  stk s (Req r) = [] -> firstq s r = Some q1 ->
+  exists n, Z.of_nat n <= 4 * Z.max 0 q1 + 6 /\
+    let s' := run c s (ECall (Req r) ODrop :: repeat (EStep (Req r)) n) in
+    stk s' (Req r) = [] /\ firstq s' r = None /\
+    (forall r', r' <> r -> firstq s' r' = firstq s r') /\
+    (forall q', held c s r q1 q' ->
+       status s' q' r = None /\
+       exists e, status s q' r = Some e /\ members s' q' = remove_first (e, r) (members s q')) /\
+    (forall q', ~ held c s r q1 q' -> members s' q' = members s q') /\
+    (forall q' r', ~ held c s r q1 q' \/ r' <> r -> status s' q' r' = status s q' r') /\
+    now s' = now s /\
+    (forall t', t' <> Req r -> stk s' t' = stk s t').
+Proof. exact drop_prefix. Qed.
+Print Assumptions C02_drop_releases_held_prefix.
+
+(* a drop of a request that is associated with no quota changes nothing *)
+Theorem C02_drop_without_quota_noop : forall c s r,
+  stk s (Req r) = [] -> firstq s r = None ->
+  let s' := run c s [ECall (Req r) ODrop; EStep (Req r)] in
+  stk s' (Req r) = [] /\ members s' = members s /\ status s' = status s /\ firstq s' = firstq s.
+Proof. exact drop_without_quota. Qed.
+Print Assumptions C02_drop_without_quota_noop.
+
+(* the 429 after a parent's refusal, spelled out: the request holds the child
+   q (the parent p refused, no status there); the drop gives the child's slot
+   back and touches no other quota — the parent's set in particular *)
+Theorem C02_drop_after_parent_refusal : forall c, wf c -> forall s r q p e,
+  stk s (Req r) = [] -> firstq s r = Some q ->
+  status s q r = Some e -> cpar c q = Some p -> status s p r = None ->
+  exists n, Z.of_nat n <= 4 * Z.max 0 q + 6 /\
+    let s' := run c s (ECall (Req r) ODrop :: repeat (EStep (Req r)) n) in
+    stk s' (Req r) = [] /\ firstq s' r = None /\ status s' q r = None /\
+    members s' q = remove_first (e, r) (members s q) /\
+    (forall q', q' <> q -> members s' q' = members s q' /\ forall r', status s' q' r' = status s q' r').
+Proof. exact drop_after_parent_refusal. Qed.
+Print Assumptions C02_drop_after_parent_refusal.
+
+(* ---- the hypotheses are satisfiable: a parent that refuses ------------- *)
+
+Definition pr_rows : list qrow := [(1, 2000000000, None); (2, 2000000000, Some 0)].
+Definition pr_cfg : config := mkcfg pr_rows.
+Definition pr_evs : list event :=
+  ECall (Req 0) (OAllowed 1) :: repeat (EStep (Req 0)) 12 ++
+  ECall (Req 1) (OGetQ 1) :: EStep (Req 1) ::
+  ECall (Req 1) (OAllowed 1) :: repeat (EStep (Req 1)) 12.
+
+(* request 0 fills the parent (max 1); request 1 is admitted by the child
+   (max 2) and refused by the parent: it is answered 429 while it holds the
+   child's slot; the hypotheses of C02_drop_after_parent_refusal hold in that
+   reachable state, and the drop run by the model frees the child's slot *)
+Example C02_ex_parent_refusal :
+  let s := run pr_cfg (init 0) pr_evs in
+  phased pr_cfg 0 pr_evs /\
+  verdict s 0 = Some true /\ verdict s 1 = Some false /\
+  stk s (Req 1) = [] /\ firstq s 1 = Some 1 /\ status s 1 1 = Some 2010000000 /\
+  cpar pr_cfg 1 = Some 0 /\ status s 0 1 = None /\
+  members s 1 = [(2010000000, 0); (2010000000, 1)] /\
+  let s' := run_op pr_cfg fuel0 s (Req 1) ODrop in
+  members s' 1 = [(2010000000, 0)] /\ members s' 0 = [(2010000000, 0)] /\ status s' 1 1 = None.
+Proof.
+  cbn zeta. split; [unfold phased; cbn; intuition discriminate|].
+  vm_compute. repeat split; reflexivity.
+Qed.
+
+(* ====================================================================== *)
+(* (B) fuel: what the suites evaluate is the run of the theorems            *)
+
+(* [run_op c fuel s t o] (Model.v; used by run_res / run_eng with fuel0 = 200)
+   is literally the solo run of the theorems with n = fuel ... *)
+Theorem C02_run_op_is_run : forall c fuel s t o,
+  run_op c fuel s t o = run c s (ECall t o :: repeat (EStep t) fuel).
+Proof. exact run_op_run. Qed.
+Print Assumptions C02_run_op_is_run.
+
+(* ... and a finished solo run does not depend on the fuel: whenever the run of
+   a theorem ends idle after n steps and either fuel >= n or the fuelled run
+   ended idle too (verdict code <> -99 in the suites), the two states are
+   equal.  Fuel exhaustion cannot make a suite agree for the wrong reason. *)
+Theorem C02_run_op_fuel : forall c fuel s t o n,
+  stk (run c s (ECall t o :: repeat (EStep t) n)) t = [] ->
+  (n <= fuel)%nat \/ stk (run_op c fuel s t o) t = [] ->
+  run_op c fuel s t o = run c s (ECall t o :: repeat (EStep t) n).
+Proof. exact run_op_fuel. Qed.
+Print Assumptions C02_run_op_fuel.
+
+(* the four run-to-completion statements in terms of [run_op] with a fuel that
+   is large enough (fuel0 = 200 covers quota ids up to 32 — the chain depth —
+   and sets of up to 99 members; the harness uses ids <= 3, max <= 3) *)
+Theorem C02_dec_op : forall c, wf c -> forall s r q fuel,
+  stk s (Req r) = [] -> 4 * Z.max 0 q + 5 <= Z.of_nat fuel ->
+  let s' := run_op c fuel s (Req r) (ODec q) in
+  stk s' (Req r) = [] /\
+  (forall q', held c s r q q' ->
+     status s' q' r = None /\
+     exists e, status s q' r = Some e /\ members s' q' = remove_first (e, r) (members s q')) /\
+  (forall q', ~ held c s r q q' -> members s' q' = members s q') /\
+  (forall q' r', ~ held c s r q q' \/ r' <> r -> status s' q' r' = status s q' r').
+Proof.
+  intros c WF s r q fuel E B. destruct (dec_prefix c WF s r q E) as [n [Bn [G1 [G2 [G3 [G4 _]]]]]].
+  cbn zeta in *. rewrite (run_op_fuel c fuel s (Req r) (ODec q) n G1) by (left; lia). auto.
+Qed.
+Print Assumptions C02_dec_op.
+
+Theorem C02_drop_op : forall c, wf c -> forall s r q1 fuel,
+  stk s (Req r) = [] -> firstq s r = Some q1 -> 4 * Z.max 0 q1 + 6 <= Z.of_nat fuel ->
+  let s' := run_op c fuel s (Req r) ODrop in
+  stk s' (Req r) = [] /\ firstq s' r = None /\
+  (forall q', held c s r q1 q' ->
+     status s' q' r = None /\
+     exists e, status s q' r = Some e /\ members s' q' = remove_first (e, r) (members s q')) /\
+  (forall q', ~ held c s r q1 q' -> members s' q' = members s q') /\
+  (forall q' r', ~ held c s r q1 q' \/ r' <> r -> status s' q' r' = status s q' r').
+Proof.
+  intros c WF s r q1 fuel E F B.
+  destruct (drop_prefix c WF s r q1 E F) as [n [Bn [G1 [G2 [_ [G3 [G4 [G5 _]]]]]]]].
+  cbn zeta in *. rewrite (run_op_fuel c fuel s (Req r) ODrop n G1) by (left; lia). auto.
+Qed.
+Print Assumptions C02_drop_op.
+
+Theorem C02_gc_op : forall c s q fuel,
+  stk s (Gc q) = [] -> (2 * length (members s q) + 1 <= fuel)%nat ->
+  let s' := run_op c fuel s (Gc q) (OGc q) in
+  stk s' (Gc q) = [] /\
+  members s' q = filter (fun m => now s <? fst m) (members s q) /\
+  (forall e r, In (e, r) (members s q) -> e <= now s -> status s' q r = None) /\
+  (forall q', q' <> q -> members s' q' = members s q' /\ forall r, status s' q' r = status s q' r).
+Proof.
+  intros c s q fuel E B. destruct (gc_pass_b c s q E) as [n [Bn [F1 [F2 [_ [F4 [F5 [_ F7]]]]]]]].
+  cbn zeta in *. rewrite (run_op_fuel c fuel s (Gc q) (OGc q) n F1) by (left; lia).
+  split; [exact F1|]. split; [exact F2|]. split; [exact F5|].
+  intros q' N. split; [apply F4; exact N|intros r; apply F7; exact N].
+Qed.
+Print Assumptions C02_gc_op.
+
+Theorem C02_probe_op : forall c, wf c -> forall s p q fuel,
+  stk s (Req p) = [] ->
+  (forall q', anc c q q' ->
+     status s q' p = None /\ Z.of_nat (length (members s q')) < cmax c q') ->
+  6 * Z.max 0 q + 5 <= Z.of_nat fuel ->
+  let s' := run_op c fuel s (Req p) (OAllowed q) in
+  stk s' (Req p) = [] /\ verdict s' p = Some true.
+Proof.
+  intros c WF s p q fuel E H B. destruct (probe_admitted_b c WF s p q E H) as [n [Bn [F1 F2]]].
+  cbn zeta in *. rewrite (run_op_fuel c fuel s (Req p) (OAllowed q) n F1) by (left; lia). auto.
+Qed.
+Print Assumptions C02_probe_op.
+
+(* ====================================================================== *)
+(* (C) release under every interleaving                                    *)
+
+(* Whatever the other threads (transactions, GC passes, the clock) do in
+   between: once a Dec of quota q — or a drop of a request whose first-touched
+   quota is q — that request r started is over (r is idle again, possibly
+   after further operations), r holds no status and no member in q.  Phased
+   schedule, acyclic forest; no condition on expiry. *)
+Theorem C02_release_completes_interleaved : forall c t0 evs1 evs2 r o q, wf c ->
+  phased c t0 (evs1 ++ ECall (Req r) o :: evs2) ->
+  let s1 := run c (init t0) evs1 in
+  let s2 := run c s1 (ECall (Req r) o :: evs2) in
+  stk s1 (Req r) = [] ->                       (* the call is accepted *)
+  (o = ODec q \/ (o = ODrop /\ firstq s1 r = Some q)) ->
+  stk s2 (Req r) = [] ->                       (* r is idle at the end *)
+  status s2 q r = None /\ forall e, ~ In (e, r) (members s2 q).
+Proof. exact release_completes. Qed.
+Print Assumptions C02_release_completes_interleaved.
+
+(* The ancestors: if none of the statuses r holds on the chain expires before
+   the end of the schedule (the response is processed in time), the
+   interleaved Dec frees exactly what the solo Dec frees — the whole held
+   prefix — under every interleaving.  (When a status did expire, the GC of
+   that quota may delete it between two lock regions of the Dec; Dec then
+   stops there and the quotas above are freed by their own expiry:
+   C02_gc_pass_interleaved.) *)
+Theorem C02_dec_releases_held_prefix_interleaved : forall c t0 evs1 evs2 r q, wf c ->
+  phased c t0 (evs1 ++ ECall (Req r) (ODec q) :: evs2) ->
+  let s1 := run c (init t0) evs1 in
+  let s2 := run c s1 (ECall (Req r) (ODec q) :: evs2) in
+  stk s1 (Req r) = [] -> stk s2 (Req r) = [] ->
+  (forall q' e, anc c q q' -> status s1 q' r = Some e -> now s2 < e) ->
+  forall q', held c s1 r q q' ->
+    status s2 q' r = None /\ forall e, ~ In (e, r) (members s2 q').
+Proof. exact dec_interleaved_prefix. Qed.
+Print Assumptions C02_dec_releases_held_prefix_interleaved.
+
+Theorem C02_drop_releases_held_prefix_interleaved : forall c t0 evs1 evs2 r q1, wf c ->
+  phased c t0 (evs1 ++ ECall (Req r) ODrop :: evs2) ->
+  let s1 := run c (init t0) evs1 in
+  let s2 := run c s1 (ECall (Req r) ODrop :: evs2) in
+  stk s1 (Req r) = [] -> firstq s1 r = Some q1 -> stk s2 (Req r) = [] ->
+  (forall q' e, anc c q1 q' -> status s1 q' r = Some e -> now s2 < e) ->
+  forall q', held c s1 r q1 q' ->
+    status s2 q' r = None /\ forall e, ~ In (e, r) (members s2 q').
+Proof. exact drop_interleaved_prefix. Qed.
+Print Assumptions C02_drop_releases_held_prefix_interleaved.
+
+(* ---- satisfiable: a Dec interleaved with a GC pass and another request -- *)
+
+Definition il_rows : list qrow := [(2, 3000000000, None); (1, 1000000000, Some 0)].
+Definition il_cfg : config := mkcfg il_rows.
+Definition il_evs1 : list event :=
+  ECall (Req 1) (OAllowed 1) :: repeat (EStep (Req 1)) 12 ++ [ETick 500000000].
+Definition il_evs2 : list event :=
+  [EStep (Req 1); ECall (Gc 1) (OGc 1); EStep (Req 1); EStep (Gc 1);
+   ECall (Req 2) (OAllowed 1); EStep (Req 1); EStep (Req 2); EStep (Gc 1);
+   EStep (Req 1); EStep (Req 2); EStep (Req 1); EStep (Req 2);
+   EStep (Req 1); EStep (Req 1); EStep (Req 1); EStep (Req 1)].
+
+Lemma il_anc : forall q q', anc il_cfg q q' -> q = 1 -> q' = 1 \/ q' = 0.
+Proof.
+  intros q q' A. induction A as [q|q p q' P A IH]; intros ->; [left; reflexivity|].
+  vm_compute in P. inversion P; subst p. right.
+  inversion A as [|? p2 ? P2 _]; subst; [reflexivity|]. vm_compute in P2. discriminate.
+Qed.
+
+Example C02_ex_il_wf : wf il_cfg.
+Proof.
+  intros q p H. unfold il_cfg, mkcfg in H. cbn [cpar] in H.
+  destruct (Z.eqb_spec q 0) as [->|N0]; [vm_compute in H; discriminate|].
+  destruct (Z.eqb_spec q 1) as [->|N1]; [vm_compute in H; inversion H; lia|].
+  exfalso. unfold il_rows, zth in H.
+  apply Z.eqb_neq in N0. rewrite N0 in H.
+  assert (Q1 : (q - 1 =? 0) = false) by (apply Z.eqb_neq; lia). rewrite Q1 in H.
+  discriminate H.
+Qed.
+
+(* request 1 holds child and parent; its Dec of the child runs while the
+   child's GC takes a (fruitless) pass and request 2 acquires the freed
+   child slot; the hypotheses of the interleaved theorem hold, and — as it
+   says — request 1 ends without status and member on both quotas *)
+Example C02_ex_interleaved_dec :
+  let s1 := run il_cfg (init 0) il_evs1 in
+  let s2 := run il_cfg s1 (ECall (Req 1) (ODec 1) :: il_evs2) in
+  phased il_cfg 0 (il_evs1 ++ ECall (Req 1) (ODec 1) :: il_evs2) /\
+  stk s1 (Req 1) = [] /\ stk s2 (Req 1) = [] /\
+  (forall q' e, anc il_cfg 1 q' -> status s1 q' 1 = Some e -> now s2 < e) /\
+  held il_cfg s1 1 1 1 /\ held il_cfg s1 1 1 0 /\
+  status s2 1 1 = None /\ status s2 0 1 = None /\ members s2 0 = [] /\
+  members s2 1 = [(1510000000, 2)].
+Proof.
+  cbn zeta. split; [unfold phased; cbn; intuition discriminate|].
+  split; [vm_compute; reflexivity|]. split; [vm_compute; reflexivity|].
+  split.
+  { intros q' e A S. destruct (il_anc 1 q' A eq_refl) as [->| ->];
+      vm_compute in S; inversion S; subst e; vm_compute; reflexivity. }
+  split; [apply (heldb_sound _ _ _ 2%nat); vm_compute; reflexivity|].
+  split; [apply (heldb_sound _ _ _ 2%nat); vm_compute; reflexivity|].
+  vm_compute. repeat split; reflexivity.
+Qed.
+
+(* ====================================================================== *)
+(* (D) expiry under every interleaving; "never stays exhausted"            *)
+
+(* A GC pass of q that takes its snapshot at s1 and has ended at s2, with ANY
+   events of other threads in between (phased schedule): for every request r
+   that executes no lock region during the pass — it ended, or was abandoned
+   at any point — every member of r still in the set expires after the
+   snapshot instant, i.e. every member of r that was expired at the snapshot
+   is gone, and r's status in q is deleted.  (A request that does step during
+   the pass may add a new member; that one is for the next pass.) *)
+Theorem C02_gc_pass_interleaved : forall c t0 evs1 evs2 q rest, wf c ->
+  phased c t0 (evs1 ++ EStep (Gc q) :: evs2) ->
+  let s1 := run c (init t0) evs1 in
+  let s2 := run c s1 (EStep (Gc q) :: evs2) in
+  stk s1 (Gc q) = GSnap q :: rest ->          (* the pass takes its snapshot now *)
+  stk s2 (Gc q) = [] ->                        (* ... and has ended *)
+  forall r, ~ In (EStep (Req r)) evs2 ->
+    (forall e, In (e, r) (members s2 q) -> now s1 < e) /\
+    (forall e, In (e, r) (members s1 q) -> e <= now s1 -> status s2 q r = None).
+Proof. exact gc_pass_interleaved. Qed.
+Print Assumptions C02_gc_pass_interleaved.
+
+(* [swept c t0 evs q]: in the schedule evs a GC pass of q took its snapshot
+   when every member of the set had expired, no REQUEST thread executed a lock
+   region from then on (transactions have ended or are abandoned; GC threads of
+   all quotas, the clock and calls on idle threads are free to interleave),
+   and the pass has ended.  Then the set is empty ... *)
+Theorem C02_swept_empty : forall c t0 evs q, wf c -> phased c t0 evs ->
+  swept c t0 evs q -> members (run c (init t0) evs) q = [].
+Proof. exact swept_empty. Qed.
+Print Assumptions C02_swept_empty.
+
+(* ... and the quota does not stay exhausted: once every quota of the chain
+   of q was swept, a fresh request is admitted (run alone, at most 6*q+5 lock
+   regions). *)
+Theorem C02_never_stays_exhausted : forall c t0 evs q p, wf c -> phased c t0 evs ->
+  let s := run c (init t0) evs in
+  (forall q', anc c q q' -> swept c t0 evs q' /\ 0 < cmax c q') ->
+  stk s (Req p) = [] -> (forall q', anc c q q' -> status s q' p = None) ->
+  exists n, Z.of_nat n <= 6 * Z.max 0 q + 5 /\
+    let s' := run c s (ECall (Req p) (OAllowed q) :: repeat (EStep (Req p)) n) in
+    stk s' (Req p) = [] /\ verdict s' p = Some true.
+Proof. exact swept_probe. Qed.
+Print Assumptions C02_never_stays_exhausted.
+
+(* ---- satisfiable: an abandoned transaction, two interleaved GC passes --- *)
+
+Definition sw_evs1 : list event :=
+  ECall (Req 1) (OAllowed 1) :: repeat (EStep (Req 1)) 12 ++
+  [ETick 4000000000; ECall (Gc 1) (OGc 1); ECall (Gc 0) (OGc 0)].
+Definition sw_evs : list event :=
+  sw_evs1 ++ [EStep (Gc 1); EStep (Gc 0); EStep (Gc 1); EStep (Gc 0);
+              ECall (Req 7) (OGetQ 1); EStep (Gc 0); EStep (Gc 1)].
+
+Example C02_ex_swept :
+  phased il_cfg 0 sw_evs /\ swept il_cfg 0 sw_evs 1 /\ swept il_cfg 0 sw_evs 0 /\
+  0 < cmax il_cfg 1 /\ 0 < cmax il_cfg 0 /\
+  let s := run il_cfg (init 0) sw_evs in
+  stk s (Req 2) = [] /\ status s 1 2 = None /\ status s 0 2 = None /\
+  verdict (run_op il_cfg fuel0 s (Req 2) (OAllowed 1)) 2 = Some true.
+Proof.
+  split; [unfold phased; cbn; intuition discriminate|].
+  split.
+  { exists sw_evs1, [EStep (Gc 0); EStep (Gc 1); EStep (Gc 0); ECall (Req 7) (OGetQ 1); EStep (Gc 0); EStep (Gc 1)], [].
+    split; [reflexivity|]. split; [vm_compute; reflexivity|].
+    split; [intros r H; cbn in H; intuition discriminate|].
+    split; [|vm_compute; reflexivity].
+    intros e r H. vm_compute in H. destruct H as [H|[]]. inversion H; subst. vm_compute. discriminate. }
+  split.
+  { exists (sw_evs1 ++ [EStep (Gc 1)]), [EStep (Gc 1); EStep (Gc 0); ECall (Req 7) (OGetQ 1); EStep (Gc 0); EStep (Gc 1)], [].
+    split; [reflexivity|]. split; [vm_compute; reflexivity|].
+    split; [intros r H; cbn in H; intuition discriminate|].
+    split; [|vm_compute; reflexivity].
+    intros e r H. vm_compute in H. destruct H as [H|[]]. inversion H; subst. vm_compute. discriminate. }
+  vm_compute. repeat split; reflexivity.
+Qed.
+
+(* ====================================================================== *)
+(* (E) why [phased] is needed; orphan statuses                              *)
+
+(* The statement of C02_release_once / C02_no_leak without the phasedness
+   hypothesis ... *)
+Definition C02_release_once_full : Prop := forall c t0 evs, wf c ->
+  let s := run c (init t0) evs in
+  forall q e r, In (e, r) (members s q) ->
+    status s q r = Some e \/ In (FSet q e) (stk s (Req r)).
+
+Definition np_cfg : config := mkcfg [(2, 1000000000, None)].
+(* the GC has removed request 1's expired member and has not yet executed
+   delete(allowedReq, 1); request 1 releases, RE-ACQUIRES (new member, new
+   status), and the pending delete erases the new status *)
+Definition np_evs : list event :=
+  [ECall (Req 1) (OAllowed 0)] ++ repeat (EStep (Req 1)) 6 ++
+  [ETick 2000000000; ECall (Gc 0) (OGc 0); EStep (Gc 0); EStep (Gc 0)] ++
+  [ECall (Req 1) (ODec 0)] ++ repeat (EStep (Req 1)) 5 ++
+  [ECall (Req 1) (OInc 0)] ++ repeat (EStep (Req 1)) 5 ++
+  [EStep (Gc 0)].
+
+Example C02_np_wf : wf np_cfg.
+Proof.
+  intros q p H. unfold np_cfg, mkcfg in H. cbn [cpar] in H. exfalso.
+  destruct (Z.eqb_spec q 0) as [->|N0]; [vm_compute in H; discriminate|].
+  unfold zth in H. apply Z.eqb_neq in N0. rewrite N0 in H. discriminate H.
+Qed.
+
+(* ... is false: a member without status, which a later Dec does not release
+   (it leaves with its expiry, C02_gc_releases_expired).  Real transactions
+   never re-acquire after their release began; the harness checks that on
+   every engine trace. *)
+Theorem C02_release_once_needs_phased : ~ C02_release_once_full.
+Proof.
+  intros H. specialize (H np_cfg 0 np_evs C02_np_wf 0 3010000000 1).
+  cbn zeta in H. destruct H as [H|H].
+  - vm_compute. left. reflexivity.
+  - vm_compute in H. discriminate.
+  - vm_compute in H. exact H.
+Qed.
+Print Assumptions C02_release_once_needs_phased.
+
+Example C02_np_leak :
+  ~ phased np_cfg 0 np_evs /\
+  let s := run np_cfg (init 0) np_evs in
+  members s 0 = [(3010000000, 1)] /\ status s 0 1 = None /\ stk s (Req 1) = [] /\
+  members (run_op np_cfg fuel0 s (Req 1) (ODec 0)) 0 = [(3010000000, 1)].
+Proof.
+  split.
+  - unfold phased. cbn. intuition discriminate.
+  - vm_compute. repeat split; reflexivity.
+Qed.
+
+(* An orphan status in a PHASED schedule: the thread of request 1 stalls
+   between its add and its setReqStatus for longer than ttl + 10 ms, the GC
+   collects the fresh member, then the status is recorded.  The set is empty,
+   the status stays: the hypotheses of C02_no_leak_probe ("nobody holds a
+   status") fail although the quota is free — C02_room_admits (room on the
+   chain) and C02_never_stays_exhausted are the statements to rely on. *)
+Definition orphan_evs : list event :=
+  [ECall (Req 1) (OInc 0); EStep (Req 1); EStep (Req 1); EStep (Req 1)] ++
+  [ETick 2000000000; ECall (Gc 0) (OGc 0); EStep (Gc 0); EStep (Gc 0); EStep (Gc 0)] ++
+  [EStep (Req 1)].
+
+Example C02_ex_orphan_status :
+  phased np_cfg 0 orphan_evs /\
+  let s := run np_cfg (init 0) orphan_evs in
+  members s 0 = [] /\ status s 0 1 = Some 1010000000 /\ stk s (Req 1) = [] /\ stk s (Gc 0) = [] /\
+  verdict (run_op np_cfg fuel0 s (Req 2) (OAllowed 0)) 2 = Some true.
+Proof.
+  split; [unfold phased; cbn; intuition discriminate|].
+  vm_compute. repeat split; reflexivity.
+Qed.
+
+
+(* ====================================================================== *)
+(* (F) the hypotheses as checks; suites and reachable states               *)
+
+(* [wf] on the configurations-as-data of the suites is the boolean [wfb]
+   (Model.v); run_res / run_eng evaluate it on every case. *)
+Theorem C02_wfb_spec : forall rows, wfb rows = true <-> wf (mkcfg rows).
+Proof. exact wfb_spec. Qed.
+Print Assumptions C02_wfb_spec.
+
+Theorem C02_phasedb_spec : forall c t0 evs, phasedb c t0 evs = true <-> phased c t0 evs.
+Proof. exact phasedb_spec. Qed.
+Print Assumptions C02_phasedb_spec.
+
+(* a schedule in which, for every request, no Inc / Allowed call follows a
+   Dec / drop / finish call is phased — whatever the steps in between (the
+   check the harness performs on the operations of every engine trace) *)
+Theorem C02_calls_phased : forall c t0 evs,
+  calls_phasedb (fun _ => false) evs = true -> phased c t0 evs.
+Proof. exact calls_phased. Qed.
+Print Assumptions C02_calls_phased.
+
+Example C02_ex_checks :
+  wfb ex_rows = true /\ wfb il_rows = true /\ wfb [(1, 1, Some 0)] = false /\
+  calls_phasedb (fun _ => false) ex_evs = true /\ phasedb ex_cfg 0 ex_evs = true /\
+  calls_phasedb (fun _ => false) np_evs = false /\ phasedb np_cfg 0 np_evs = false.
+Proof. vm_compute. repeat split; reflexivity. Qed.
+
+(* The suites reset the verdict register between operations ([clear_verdict]),
+   which is not an event.  Every state they go through equals a reachable
+   state of the machine in everything but that register ([sbv]); no lock
+   region reads it, and no theorem above mentions it except as the output of
+   the probe. *)
+Theorem C02_suite_res_states_reachable : forall rows xs,
+  exists s2, sbv (rsteps_state (mkcfg rows) (init 0) xs) s2 /\ reachable (mkcfg rows) 0 s2.
+Proof.
+  intros rows xs. apply (rsteps_reachable _ 0 xs (init 0) (init 0)); [apply sbv_refl|].
+  exists []. reflexivity.
+Qed.
+Print Assumptions C02_suite_res_states_reachable.
+
+Theorem C02_suite_eng_states_reachable : forall rows es,
+  exists s2, sbv (eevs_state (mkcfg rows) (init 0) es) s2 /\ reachable (mkcfg rows) 0 s2.
+Proof.
+  intros rows es. apply (eevs_reachable _ 0 es (init 0) (init 0)); [apply sbv_refl|].
+  exists []. reflexivity.
+Qed.
+Print Assumptions C02_suite_eng_states_reachable.
+
+(* so, e.g., the bound holds in every state suite "res" goes through *)
+Theorem C02_bound_suite_res : forall rows xs q,
+  Z.of_nat (length (members (rsteps_state (mkcfg rows) (init 0) xs) q)) <= Z.max 0 (cmax (mkcfg rows) q).
+Proof.
+  intros rows xs q. destruct (C02_suite_res_states_reachable rows xs) as [s2 [[_ [M _]] R]].
+  rewrite M. apply (C02_bound _ _ _ R).
+Qed.
+Print Assumptions C02_bound_suite_res.
+
+(* The frame FSet merges setReqStatus and the assignment of the member (two
+   acquisitions of cs.mutex, concurrent_strategy.go:196-200).  Between the two
+   the real code holds a map entry that a GC pass could delete (the assignment
+   would then dereference nil).  In every phased schedule the GC has a
+   deletion for request r in hand while r is recording its status only when
+   the expiry of that very status has passed: the thread of r must have
+   stalled for more than ttl + 10 ms between generateMember and the end of
+   Inc.  (The window itself is below the model's granularity: trusted.) *)
+Theorem C02_gc_delete_while_recording_only_after_expiry : forall c t0 evs, wf c -> phased c t0 evs ->
+  let s := run c (init t0) evs in
+  forall q r e, In (FSet q e) (stk s (Req r)) ->
+    (In (GDel q r) (stk s (Gc q)) \/ exists e', In (GItem q e' r) (stk s (Gc q)) /\ e' <= now s) ->
+    e <= now s.
+Proof. exact gc_delete_while_recording. Qed.
+Print Assumptions C02_gc_delete_while_recording_only_after_expiry.
